@@ -16,8 +16,13 @@ enforcer, module-global substitution of RLock/Condition in casbin.util.rwlock):
        mutating (reading or mutating) call must not complete;
  (iii) small concurrent programs under the controlled scheduler (preemption-bounded depth-first search + random
        schedules; scheduling points: every mutex operation of the lock, entry of the wrapped call, after every
-       role-manager clear/add_link/delete_link): every outcome must be linearizable — some sequential order of the same
-       calls on a plain Enforcer that respects real time gives the same results and the same final state."""
+       role-manager clear/add_link/delete_link/has_link, inside the registered role / domain matching functions - user code
+       the role manager calls in the middle of creating the role object of a new name or the manager of a new domain -,
+       before every acquisition of a role manager's own lock): every outcome must be linearizable — some sequential order
+       of the same calls on a plain Enforcer that respects real time gives the same results and the same final state
+       (policy, get_roles of every name, get_users of every role WITH multiplicities).
+       Reading calls memoise (RoleManager._get_role, DomainManager._get_role_manager): the first-sight stream (setups
+       `pattern`, `dompat`) makes several threads ask about the same new name at the same time."""
 import inspect
 import itertools
 import multiprocessing as mp
@@ -35,7 +40,8 @@ ASSUMPTIONS = [
     "the lock is the abstract readers-writer lock (writer alone, readers without writer) that C16 proves RWLockWrite to be; Props/C16 lock_refines_abstract proves that refinement for the counter abstraction of the lock program",
     "results that are live objects (model, role manager, adapter) are compared by identity with what the wrapped method returned, not by content",
     "the auto-reload thread is explored as one more thread executing ONE iteration of its loop (sleep taken out), with a good and with a failing adapter; the timer itself is not",
-    "data races inside CPython containers (free-threading) are outside the model: scheduling points are lock operations, call entries and role-manager mutations",
+    "data races inside CPython containers (free-threading) are outside the model: scheduling points are lock operations (the readers-writer lock and the role managers' own creation locks), call entries, role-manager mutations / has_link, and the user's matching functions",
+    "reading calls memoise inside the role manager (role object of a new name, manager of a new domain): the Lean proviso `read-locked calls do not change the state` is about the abstract state (answers); Props/C17 memo_* theorems show that an idempotent answer-preserving memo step under the read lock keeps linearizability; that the real memoisation is such a step is what the first-sight stream observes",
 ]
 TRUSTED_EXTRA = ["translator T2 (tools/translate/t2_synced.py)", "the controlled scheduler (tools/harness/sched.py)"]
 
@@ -57,6 +63,17 @@ def setup_defs():
         SETUPS["dom"] = dict(model=_read("rbac_with_domains_model.conf"), policy=_read("rbac_with_domains_policy.csv"), dom=True)
         # a role-name matching function is registered: reading calls then CREATE role objects for names seen for the first time
         SETUPS["pattern"] = dict(model=_read("rbac_model.conf"), policy="p, engineers, data1, read\np, staff, data2, read\ng, dept/eng/*, engineers\ng, engineers, staff\n", dom=False, matchfn=True)
+        # domain model with a role-name AND a domain matching function: a reading call about a domain seen for the first time
+        # BUILDS the per-domain role manager (DomainManager._get_role_manager, the domain matching function is called in the
+        # middle), and inside that manager creates the role objects of new names as above
+        SETUPS["dompat"] = dict(
+            model=_read("rbac_with_domains_model.conf"),
+            policy="p, engineers, domain1, data1, read\np, engineers, domain2, data2, write\np, staff, domain1, data2, read\n"
+            "g, dept/eng/*, engineers, domain1\ng, engineers, staff, domain1\ng, dept/eng/*, engineers, *\ng, bob, staff, domain2\n",
+            dom=True,
+            matchfn=True,
+            dommatchfn=True,
+        )
     return SETUPS
 
 
@@ -69,6 +86,17 @@ def _pattern_fn(key, pat):
     sc = _SCHED[0]
     if sc is not None and sc.me() is not None:
         sc.yield_(("in", "matchfn"))
+    from casbin import util
+
+    return util.key_match(key, pat)
+
+
+def _dom_fn(key, pat):
+    """the registered DOMAIN matching function (key_match) with a scheduling point inside: a reading call can be pre-empted
+    while DomainManager._get_role_manager collects the links of a domain it has not served yet"""
+    sc = _SCHED[0]
+    if sc is not None and sc.me() is not None:
+        sc.yield_(("in", "dommatchfn"))
     from casbin import util
 
     return util.key_match(key, pat)
@@ -123,10 +151,17 @@ def build(kind, synced):
     e = casbin.SyncedEnforcer(m, a) if synced else casbin.Enforcer(m, a)
     if d.get("matchfn"):
         e.add_named_matching_func("g", _pattern_fn)
+    if d.get("dommatchfn"):
+        e.add_named_domain_matching_func("g", _dom_fn)
     return e
 
 
 NAMES = ["alice", "bob", "carol", "data1", "data2", "data2_admin", "data1_admin", "read", "write", "admin", "domain1", "domain2", "root"]
+# names of the pattern setups: the concrete names a pattern covers are NOT nodes of the role graph until a call asks about them
+FRESH = ["dept/eng/alice", "dept/eng/bob", "dept/ops/carol"]
+PAT_NAMES = ["engineers", "staff", "dept/eng/*", "dept/ops/*"] + FRESH
+ROLE_NAMES = ["data2_admin", "data1_admin", "admin", "root"]
+LIN_ONLY = ("dompat",)  # setups used by the concurrent programs only
 
 
 def inner(e):
@@ -153,6 +188,27 @@ def shape_snapshot(e):
                     rs = ("!" + type(ex).__name__,)
                 if rs:
                     links.append((pt, n, dom, rs))
+        # the same links asked from the role's side, every name as often as the role manager lists it (a user recorded twice
+        # under a role is a different state: get_users_for_role shows it)
+        # (asking about a name makes it a node of the graph, which get_users of its roles then lists: all the get_roles
+        # questions come first, so that taking the snapshot twice gives the same value)
+        doms3 = doms + [("domain3",)] if hasattr(rm, "all_links") and isinstance(rm.all_links, dict) else [()]
+        got = {}
+        for n in PAT_NAMES:
+            for dom in doms3:
+                try:
+                    got[(n, dom)] = tuple(sorted(rm.get_roles(n, *dom)))
+                except Exception as ex:  # noqa
+                    got[(n, dom)] = ("!" + type(ex).__name__,)
+        for n in ROLE_NAMES + PAT_NAMES:
+            for dom in doms3:
+                try:
+                    us = tuple(sorted(rm.get_users(n, *dom)))
+                except Exception as ex:  # noqa
+                    us = ("!" + type(ex).__name__,)
+                rs = got.get((n, dom), ())
+                if us or rs:
+                    links.append((pt, n, dom, "users", us, rs))
     flags = (e.enabled, e.auto_save, e.auto_build_role_links, e.auto_notify_watcher)
     # enforce() re-derives the g-functions (and the evaluator its builtins) into the shared function map on every call:
     # these entries are a cache, not configuration
@@ -408,7 +464,7 @@ def public_methods(casbin):
 
 
 def purity(res, casbin, cls, rng, reps):
-    for kind in setup_defs():
+    for kind in [k for k in setup_defs() if k not in LIN_ONLY]:
         for name in sorted(cls):
             if cls[name] not in ("reads", "pure"):
                 continue
@@ -477,7 +533,7 @@ def seq_equiv(res, casbin, rng, n_hist, length):
             sig = inspect.signature(getattr(casbin.SyncedEnforcer, name))
             args, kwargs = synth_args(casbin, name, sig, kind, rng)
             _one_history(res, kind, [(name, args, kwargs)])
-        for _ in range(n_hist):
+        for _ in range(n_hist // 3 if kind in LIN_ONLY else n_hist):
             _one_history(res, kind, gen_history(casbin, names, kind, rng, length))
 
 
@@ -521,7 +577,7 @@ def _raw(hist):
 
 def whitebox(res, casbin, rows, cls, rng):
     byname = {r["name"]: r for r in rows}
-    for kind in setup_defs():
+    for kind in [k for k in setup_defs() if k not in LIN_ONLY]:
         for name in public_methods(casbin):
             if name in EXEMPT:
                 continue
@@ -603,11 +659,17 @@ class ConcRun:
 
         self.sc = S.Sched()
         _SCHED[0] = self.sc
+        # locks of the role managers themselves (created with the managers, also with those a reading call builds later) are
+        # made cooperative for the whole run: a scheduling point before every acquisition, a blocked thread is not runnable
+        import casbin.rbac.default_role_manager.role_manager as rmmod  # noqa
+
+        self._undo_rm = S.install_locks(rmmod)
         undo = S.install(rwmod, self.sc)
         try:
             self.se = build(kind, True)
         finally:
             undo()
+        S.set_current(self.sc)
         self.program = program
         self.results = {}
         self.events = []  # ('inv'|'res', tid, k)
@@ -677,13 +739,15 @@ class ConcRun:
     def close(self):
         _SCHED[0] = None
         self.sc.abort()
+        self._undo_rm()
+        S.set_current(None)
 
 
 def blackbox(res, casbin, cls, rng):
     """while a thread is paused inside a read (write) section, a mutating (any locked) call must not complete"""
     holders = {"reader": ["enforce", "has_policy", "get_policy"], "writer": ["add_policy", "remove_policy", "add_grouping_policy"]}
     good_holder = {}
-    for kind in setup_defs():
+    for kind in [k for k in setup_defs() if k not in LIN_ONLY]:
         for name in public_methods(casbin):
             if name in EXEMPT:
                 continue
@@ -826,9 +890,75 @@ DOM_READS = [
 ]
 
 
+# pattern setups: X stands for a name no call has asked about yet (chosen per program, so that several threads ask about the
+# SAME new name), D for a domain
+PAT_WRITES = [
+    ("add_role_for_user", ["dept/ops/*", "staff"]),
+    ("delete_role_for_user", ["dept/eng/*", "engineers"]),
+    ("add_role_for_user", ["X", "staff"]),
+    ("add_policy", ["X", "data2", "write"]),
+    ("remove_policy", ["engineers", "data1", "read"]),
+    ("build_role_links", []),
+    ("load_policy", []),
+]
+PAT_READS = [
+    ("enforce", ["X", "data1", "read"]),
+    ("enforce", ["X", "data2", "read"]),
+    ("get_roles_for_user", ["X"]),
+    ("has_role_for_user", ["X", "engineers"]),
+    ("get_implicit_roles_for_user", ["X"]),
+    ("get_implicit_permissions_for_user", ["X"]),
+    ("get_users_for_role", ["engineers"]),
+    ("get_users_for_role", ["staff"]),
+    ("get_implicit_users_for_permission", ["data1", "read"]),
+    ("batch_enforce", [[["X", "data1", "read"], ["X", "data2", "write"]]]),
+]
+DOMPAT_WRITES = [
+    ("add_role_for_user_in_domain", ["dept/ops/*", "staff", "D"]),
+    ("delete_roles_for_user_in_domain", ["dept/eng/*", "engineers", "domain1"]),
+    ("add_grouping_policy", ["X", "staff", "D"]),
+    ("add_policy", ["X", "D", "data2", "write"]),
+    ("build_role_links", []),
+    ("load_policy", []),
+]
+DOMPAT_READS = [
+    ("enforce", ["X", "D", "data1", "read"]),
+    ("enforce", ["X", "D", "data2", "write"]),
+    ("enforce", ["X", "domain3", "data2", "write"]),
+    ("get_roles_for_user_in_domain", ["X", "D"]),
+    ("get_users_for_role_in_domain", ["engineers", "D"]),
+    ("get_users_for_role_in_domain", ["staff", "domain1"]),
+    ("get_implicit_roles_for_user", ["X", "D"]),
+    ("get_implicit_permissions_for_user", ["X", "D"]),
+    ("get_roles_for_user_in_domain", ["X", "domain3"]),
+    ("get_users_for_role_in_domain", ["engineers", "domain3"]),
+]
+ALPHABETS = {"rbac": (CORE_WRITES, CORE_READS), "dom": (DOM_WRITES, DOM_READS), "pattern": (PAT_WRITES, PAT_READS), "dompat": (DOMPAT_WRITES, DOMPAT_READS)}
+
+
+def _inst(v, x, d):
+    if isinstance(v, list):
+        return [_inst(y, x, d) for y in v]
+    return x if v == "X" else d if v == "D" else v
+
+
 def gen_program(casbin, rng, whole_api_names, kind="rbac"):
     shape = rng.choice([(1, 1), (1, 2), (2, 1), (2, 2), (1, 1, 1), (1, 3), (2, 1, 1), (3, 1)])
-    writes, reads = (CORE_WRITES, CORE_READS) if kind == "rbac" else (DOM_WRITES, DOM_READS)
+    writes, reads = ALPHABETS[kind]
+    if kind in ("pattern", "dompat"):
+        # first-sight stream: mostly reading calls, most of them about ONE new name (and one domain), from several threads, and
+        # the questions whose answer shows what the first sight left behind (get_users_for_role*, later decisions)
+        x0, d0 = rng.choice(FRESH), rng.choice(["domain1", "domain2", "domain3"])
+        prog = []
+        for n in shape:
+            calls = []
+            for _ in range(n):
+                name, args = rng.choice(reads if rng.random() < 0.8 else writes)
+                x = x0 if rng.random() < 0.85 else rng.choice(FRESH)
+                d = d0 if rng.random() < 0.85 else rng.choice(["domain1", "domain2"])
+                calls.append((name, _inst(list(args), x, d), {}))
+            prog.append(calls)
+        return prog
     if rng.random() < 0.2:
         # the auto-reload thread as one more thread: one iteration of its loop, with a good or a failing adapter
         prog = [[(rng.choice(["autoload_once", "autoload_once_failing"]), [], {})]]
@@ -912,6 +1042,26 @@ def _copy_args(args):
     return [cp(a) for a in args]
 
 
+def graph_diag(e):
+    """diagnosis only (names the failing class in the signature, never decides a verdict): role objects that the role graph
+    still refers to although they are not the published node of their name - what a lazy creation that ran twice leaves"""
+    e = inner(e)
+    out = []
+    for pt in sorted(e.rm_map):
+        rm = e.rm_map[pt]
+        subs = [("", rm)] if hasattr(rm, "all_roles") and isinstance(getattr(rm, "all_roles"), dict) else []
+        subs += sorted(getattr(rm, "rm_map", {}).items()) if isinstance(getattr(rm, "rm_map", None), dict) else []
+        for dname, m in subs:
+            roles = getattr(m, "all_roles", None)
+            if not isinstance(roles, dict):
+                continue
+            for r in list(roles.values()):
+                for x in list(r.users) + list(r.roles):
+                    if roles.get(x.name) is not x:
+                        out.append((pt, dname, x.name))
+    return sorted(set(out))
+
+
 def realtime_pairs(events):
     """(a, b): call a responded before call b was invoked"""
     pairs = set()
@@ -972,7 +1122,8 @@ def run_conc(kind, program, schedule, policy_rng=None, bound=None, stack=None, f
             if len(sched) > 2000:
                 raise common.Infra("runaway schedule")
         dead = not run.sc.all_done()
-        return dict(schedule=sched, results=dict(run.results), final=shape_snapshot(run.se), pairs=realtime_pairs(run.events), dead=dead)
+        diag = [] if dead else graph_diag(run.se)  # before the final snapshot, whose own questions create nodes
+        return dict(schedule=sched, results=dict(run.results), final=None if dead else shape_snapshot(run.se), pairs=realtime_pairs(run.events), dead=dead, diag=diag)
     finally:
         run.close()
 
@@ -1017,7 +1168,14 @@ def lin_task(args):
                 out["violations"].append(dict(kind="dead", schedule=r["schedule"], observed="blocked forever"))
                 break
             if not linearizable(outcomes, r["results"], r["final"], r["pairs"]):
-                out["violations"].append(dict(kind="lin", schedule=r["schedule"], observed=[[list(k), v] for k, v in sorted(r["results"].items())]))
+                v = dict(kind="lin", schedule=r["schedule"], observed=[[list(k), v] for k, v in sorted(r["results"].items())], orphans=[list(x) for x in r["diag"]])
+                if not any(rs == r["results"] for _o, rs, _f in outcomes):
+                    v["differs"] = "results"
+                else:
+                    v["differs"] = "final state"
+                    fins = [f for _o, rs, f in outcomes if rs == r["results"]]
+                    v["final_links"] = [list(map(repr, sorted(set(r["final"][1]) - set(fins[0][1]), key=repr))), list(map(repr, sorted(set(fins[0][1]) - set(r["final"][1]), key=repr)))]
+                out["violations"].append(v)
                 break
         out["distinct_outcomes"] = len(out["distinct_outcomes"])
         out["orders"] = len(outcomes)
@@ -1031,15 +1189,18 @@ def _plain(program):
     return all(canon(a) == a for calls in program for _, args, kw in calls for a in list(args) + list(kw.values()))
 
 
-def lin_check(res, casbin, rng, n_programs, bound, n_random, max_execs, extra_programs=(), bad_rows=frozenset()):
+def lin_check(res, casbin, rng, n_programs, bound, n_random, max_execs, extra_programs=(), bad_rows=frozenset(), cls_of=None):
+    cls_of = cls_of or {}
     names = [n for n in public_methods(casbin) if n not in EXEMPT and hasattr(casbin.Enforcer, n)]
     programs = [p if isinstance(p, tuple) else ("rbac", p) for p in extra_programs]
     while len(programs) < n_programs:
-        kind = "dom" if rng.random() < 0.3 else "rbac"
+        x = rng.random()
+        kind = "dom" if x < 0.25 else "rbac" if x < 0.75 else "pattern" if x < 0.9 else "dompat"
         p = gen_program(casbin, rng, names, kind)
         if _plain(p):
             programs.append((kind, p))
-    tasks = [(kind, p, bound, n_random, rng.randrange(1 << 30), max_execs) for kind, p in programs]
+    # the first-sight setups have a scheduling point in every call of the matching function: longer executions, smaller budget
+    tasks = [(kind, p, bound, n_random, rng.randrange(1 << 30), max_execs * 5 // 8 if kind in ("pattern", "dompat") else max_execs) for kind, p in programs]
     with mp.Pool(14) as pool:
         outs = pool.map(lin_task, tasks, chunksize=2)
     for (kind, p), o in zip(programs, outs):
@@ -1061,15 +1222,23 @@ def lin_check(res, casbin, rng, n_programs, bound, n_random, max_execs, extra_pr
             names_in = sorted({c[0] for calls in p for c in calls})
             # stable signature: the methods of the program whose table row fails the static checks, when there are any
             names_in = [n for n in names_in if n in bad_rows] or names_in
+            sig = ("lin:" if v["kind"] == "lin" else "dead:") + "+".join(names_in)
+            extra = ""
+            if v["kind"] == "lin" and v.get("orphans"):
+                # diagnosis: the role graph refers to a role object that is not the published node of its name - the class "a
+                # lazily created role was created twice", whatever the methods of the program were
+                sig = "lin:role-created-twice"
+                extra = "; afterwards the role graph lists " + ", ".join(sorted({repr(o[2]) for o in v["orphans"]})) + " twice among the users of its roles (get_users_for_role shows it): overlapping calls each created the role object of that name"
             res.violation(
                 {
-                    "signature": ("lin:" if v["kind"] == "lin" else "dead:") + "+".join(names_in),
+                    "signature": sig,
                     "what": (
                         "a concurrent execution of SyncedEnforcer calls is not equivalent to any one-at-a-time order of the same calls on a plain Enforcer that respects real time"
                         if v["kind"] == "lin"
                         else "a concurrent execution of SyncedEnforcer calls blocked forever"
                     )
-                    + f": threads {_prog_show(p)}, schedule {v['schedule']}",
+                    + f": threads {_prog_show(p)}, schedule {v['schedule']}"
+                    + extra,
                     "check": "lin",
                     "setup": kind,
                     "program": _prog_show(p),
@@ -1077,6 +1246,9 @@ def lin_check(res, casbin, rng, n_programs, bound, n_random, max_execs, extra_pr
                     "fine": True,
                     "expected": "results and final state of some sequential order",
                     "observed": v["observed"],
+                    "differs": v.get("differs"),
+                    "orphan_roles": v.get("orphans"),
+                    "final_links_only_concurrent_vs_only_sequential": v.get("final_links"),
                 }
             )
         if len(res.samples) < 5 and o["execs"] > 1:
@@ -1097,6 +1269,12 @@ PATTERN_PROGRAMS = [
     ("pattern", [[("has_role_for_user", [_ENG, "engineers"], {})], [("enforce", [_ENG, "data1", "read"], {}), ("enforce", ["dept/eng/bob", "data1", "read"], {})]]),
     ("pattern", [[("add_role_for_user", ["dept/ops/*", "staff"], {})], [("enforce", [_ENG, "data2", "read"], {})], [("enforce", ["dept/ops/carol", "data2", "read"], {})]]),
     ("pattern", [[("delete_role_for_user", ["dept/eng/*", "engineers"], {})], [("enforce", [_ENG, "data1", "read"], {})], [("get_roles_for_user", [_ENG], {})]]),
+    # two first sights of the same name, then the question whose ANSWER shows what they left behind
+    ("pattern", [[("get_roles_for_user", [_ENG], {})], [("get_roles_for_user", [_ENG], {}), ("get_users_for_role", ["engineers"], {})]]),
+    ("pattern", [[("has_role_for_user", [_ENG, "staff"], {})], [("get_implicit_roles_for_user", [_ENG], {}), ("get_users_for_role", ["engineers"], {})]]),
+    # first sight of a name inside a per-domain manager, and of a DOMAIN (its manager is built by a reading call)
+    ("dompat", [[("enforce", [_ENG, "domain1", "data2", "write"], {})], [("get_roles_for_user_in_domain", [_ENG, "domain1"], {})]]),
+    ("dompat", [[("get_roles_for_user_in_domain", [_ENG, "domain3"], {})], [("get_roles_for_user_in_domain", [_ENG, "domain3"], {})]]),
 ]
 
 
@@ -1128,12 +1306,16 @@ def run(ctx):
         seq_equiv(res, casbin, rng, 150 if q else 1500, 12)
         whitebox(res, casbin, rows, cls, rng)
         blackbox(res, casbin, cls, rng)
-        lin_check(res, casbin, rng, 160 if q else 700, 2 if q else 3, 12 if q else 40, 400 if q else 2000, extra_programs=F12_PROGRAMS + PATTERN_PROGRAMS, bad_rows=bad_rows)
+        lin_check(res, casbin, rng, 160 if q else 700, 2 if q else 3, 12 if q else 40, 400 if q else 2000, extra_programs=F12_PROGRAMS + PATTERN_PROGRAMS, bad_rows=bad_rows, cls_of=cls)
     res.rule = (
-        "purity observation of every reading callee on 2 sample enforcers; sequential histories (every public method alone + random histories of 12 calls "
-        "over the whole API, two model shapes) through SyncedEnforcer and Enforcer; white-box lock/argument/return spies and black-box blocking "
+        "purity observation of every reading callee on 3 sample enforcers; sequential histories (every public method alone + random histories of 12 calls "
+        "over the whole API, four setups: plain RBAC, domains, RBAC with a role matching function, domains with role and domain matching "
+        "functions) through SyncedEnforcer and Enforcer; white-box lock/argument/return spies and black-box blocking "
         "observation for every public method; concurrent programs of 2-3 threads x 1-3 calls under the controlled scheduler "
-        "(preemption-bounded DFS + random schedules), each outcome checked against all sequential orders on a plain Enforcer; "
+        "(preemption-bounded DFS + random schedules; scheduling points also inside the matching functions and before every acquisition of "
+        "a role manager's own lock; a first-sight stream: several threads asking about the SAME name that is not yet a node of the role "
+        "graph / a domain that has no manager yet), each outcome - results and final state incl. get_users of every role with "
+        "multiplicities - checked against all sequential orders on a plain Enforcer; "
         "non-trivial = histories of more than one call / programs with more than one distinct outcome"
     )
     res.exhaustive = False
